@@ -7,6 +7,28 @@ import KeepVerif.Proofs.C01Net
 message, disqualified = first admitted message lacks a key) is the same function of the per-sender
 first messages for every member; together with `inbox_author_eq` (consistent broadcast of the model's
 network) this is the induction step for phase 2.
+
+## Status of the protocol-level theorem (`agreement`)
+
+Proved here, for all inputs: the network lemma (`Proofs/C01Net.lean`, `inbox_author_eq`) and the
+phase 2 step (`views_agree_after_phase_2_step`).  Not yet formalised: the instantiation of the step's
+hypotheses inside `run` (states after phase 1 are `initSt` + the filtered delivery) and the steps for
+the later phases.  Paper argument for the REPAIRED code (every item names the fix that makes it true):
+
+* phases 3→4: admission by the common view (equal after phase 2); inactivity and the completeness
+  checks are public and evaluated on a snapshot (`20d0c28`); only the validity of the own share is
+  private, and a private disqualification is always announced by an accusation revealing the key.
+* phase 4→5: accusations are admitted by the snapshot taken before the own verification (`773009f`),
+  so every honest member resolves the same accusations; the verdict is a function of the evidence
+  log and the commitments (`verdict5_public`); the accuser's private verdict equals the public one
+  because both decrypt the same ciphertext with the same ECDH key (A-aead) and check the same
+  equation; resolution precedes inactivity marking (`c47d650`), an unresolvable accusation
+  disqualifies its sender (`4d2211d`).  Hence equal views after phase 5.
+* phases 7→9: same with `resolution_agree` / `pointsOf_discardPoints` (`4790a8a`).
+* phases 10→11: reveals are validated and recovered against one snapshot, first message per sender
+  (`fdc6bd5`, `855db62`), only for QUAL members (`62e8a18`); every honest member interpolates the
+  same point set (`threshold_interpolates_exec`: any t+1 consistent shares give the same value).
+* phase 12: the key is a commutative sum over the same set of individual keys.
 -/
 namespace KeepVerif.C01
 
